@@ -73,11 +73,20 @@ C02Self(n, b1, p, b2) ==
 
 \* C05  sizeof is exact when it answers.   cs = <<sizeof, build or parse>>
 \* a build counts when what it wrote is a valid encoding (RawCopy writes caller-supplied raw data unchecked)
+\* judged on the program without its RawCopy wrappers: with them, re-encoding would just copy the raw data again
+RECURSIVE Unraw(_)
+Unraw(n) ==
+    IF n.k = "RawCopy" THEN Unraw(n.sub)
+    ELSE [f \in DOMAIN n |->
+            CASE f \in {"sub", "lenf", "cf", "then", "else", "default", "field"} -> Unraw(n[f])
+              [] f \in {"subs", "cv"} -> [i \in 1..Len(n[f]) |-> Unraw(n[f][i])]
+              [] OTHER -> n[f]]
 ValidEncoding(n, x) ==
     LET bytes == IF x.op = "build" THEN x.res.v.b ELSE SubSeq(x.data, x.start + 1, x.res.p)
-        mp == ParseCall(n, bytes, 0, x.kw)
+        u == Unraw(n)
+        mp == ParseCall(u, bytes, 0, x.kw)
     IN /\ ~IsOOM(mp) /\ mp.ok /\ Tell(mp.s) = Len(bytes)
-       /\ LET mb == BuildCall(n, mp.v, <<>>, x.kw) IN ~IsOOM(mb) /\ mb.ok /\ mb.s.data = bytes
+       /\ LET mb == BuildCall(u, mp.v, <<>>, x.kw) IN ~IsOOM(mb) /\ mb.ok /\ mb.s.data = bytes
 C05Exact(n, z, x) ==
     Tri(z.res.ok /\ x.res.ok /\ ~AnyNode(n, {"ProcessXor", "ProcessRotateLeft", "NullStripped", "Seek", "Pointer", "RestreamData"})
         /\ (AnyNode(n, {"RawCopy"}) => ValidEncoding(n, x)),
